@@ -60,23 +60,31 @@ end GoArr
     the token `t` (what it is or points to is not modelled) -/
 abbrev GoAny := Option Nat
 
-/-- a Go map as an association list without duplicate keys (the newest binding first). Only
-    lookups, insertions, deletions and `len` are translated, never iteration, so the order of the
-    entries is not observable. -/
+/-- a Go map as an association list without duplicate keys (the newest binding first), with its
+    nil-ness (`nonNil = false`: the nil map — reads find nothing, a write panics). Only lookups,
+    insertions, deletions and `len` are translated, never iteration, so the order of the entries
+    is not observable. -/
 structure GoMap (K V : Type) where
   entries : List (K × V)
+  nonNil : Bool
 deriving Repr, DecidableEq
 
-instance {K V : Type} : Inhabited (GoMap K V) := ⟨⟨[]⟩⟩
+/-- the zero value of a map type is the nil map -/
+instance {K V : Type} : Inhabited (GoMap K V) := ⟨⟨[], false⟩⟩
 
 namespace GoMap
 variable {K V : Type} [DecidableEq K]
+/-- `map[K]V{}`: empty, not nil -/
+def empty : GoMap K V := ⟨[], true⟩
+/-- `m == nil` -/
+def isNil (m : GoMap K V) : Bool := !m.nonNil
 /-- `v, ok := m[k]` -/
 def find (m : GoMap K V) (k : K) : Option V := (m.entries.find? (fun p => p.1 == k)).map (·.2)
-/-- `delete(m, k)` -/
-def delete (m : GoMap K V) (k : K) : GoMap K V := ⟨m.entries.filter (fun p => !(p.1 == k))⟩
-/-- `m[k] = v` (never panics for a non-nil map) -/
-def set (m : GoMap K V) (k : K) (v : V) : Option (GoMap K V) := some ⟨(k, v) :: (m.delete k).entries⟩
+/-- `delete(m, k)` (a no-op on the nil map) -/
+def delete (m : GoMap K V) (k : K) : GoMap K V := { m with entries := m.entries.filter (fun p => !(p.1 == k)) }
+/-- `m[k] = v`; `none` = assignment to an entry of the nil map -/
+def set (m : GoMap K V) (k : K) (v : V) : Option (GoMap K V) :=
+  if m.nonNil then some { m with entries := (k, v) :: (m.delete k).entries } else none
 def get (m : GoMap K V) (k : K) [Inhabited V] : Option V := some ((m.find k).getD default)
 /-- `len(m)` -/
 def len (m : GoMap K V) : Nat := m.entries.length
